@@ -10,7 +10,8 @@ sys.path.insert(0, os.path.dirname(os.path.abspath(__file__)))
 sys.path.insert(0, os.path.join(os.path.dirname(os.path.dirname(os.path.abspath(__file__))), "tools"))
 import vlib  # noqa: E402
 
-OWN = ["EachBoundOnce", "NoneAfterUnbind", "OnlyBound", "RewrittenHeader", "RestUnchanged", "CallerUntouched"]
+OWN = ["EachBoundOnce", "NoneAfterUnbind", "OnlyBound", "OverlapLinearizable", "RewrittenHeader", "RestUnchanged",
+       "CallerUntouched"]
 
 
 def structural_paths(g, maxlen, shapes, rng, cap):
@@ -65,7 +66,7 @@ def run(ctx):
     # 1c. the named wrong alternatives: TLC must exhibit each counterexample (design-level sanity of the operators)
     alt = {}
     for cfg, inv in (("StaticRTP_inplace", "ModelCallerUntouched"), ("StaticRTP_poplast", "ModelEachBoundOnce"),
-                     ("StaticRTP_nopadfix", "ModelRestUnchanged")):
+                     ("StaticRTP_nopadfix", "ModelRestUnchanged"), ("StaticRTP_snapshot", "ModelLinearizable")):
         r = vlib.tlc_expect_violation(ctx, "StaticRTP", cfg, workers=2)
         found = [ln for ln in r.stdout.splitlines() if ln.startswith("Error: Invariant")]
         alt[cfg] = found[0] if found else "none (rc=%s)" % r.rc
@@ -108,6 +109,11 @@ def run(ctx):
     writes = [ln for ln in lines if ln.get("ev") == "write"]
     calls = [ln for ln in lines if ln.get("ev") in ("write", "bind", "unbind")]
     drift = sum(1 for ln in calls if ln.get("exp") and ln["exp"] != ln["res"])
+    over = [w for w in writes if w["conc"]["op"] != "none"]
+    # the model says a Bind/Unbind called during a write waits for it (Lock = "held")
+    drift += sum(1 for w in over if w["conc"]["during"])
+    ctx.cov["overlapping_writes"] = len(over)
+    ctx.cov["overlapping_calls_that_did_not_wait"] = sum(1 for w in over if w["conc"]["during"])
     ctx.cov["model_drift_steps"] = drift
     ctx.cov["evaluations"] = len(writes)
     ctx.cov["deliveries_observed"] = sum(len(w["recv"]) for w in writes)
